@@ -254,7 +254,8 @@ impl Shared {
     }
     /// only the totality properties have a bounded-time clause
     fn stall_is_violation(&self) -> bool {
-        self.id == "C04" || self.id == "C05"
+        // CPU-time verdicts are calibrated for the optimised build only
+        (self.id == "C04" || self.id == "C05") && !is_dbg_profile()
     }
     pub fn stopped(&self) -> bool {
         self.stop.load(Ordering::Relaxed)
@@ -336,6 +337,12 @@ where
         let name = self.name;
         let copy = v.clone();
         sh.beat();
+        if record_all() {
+            // second attempt after the process died by a signal with no recorded culprit: every
+            // case is handed to the crash recorder before it runs (see tools/crash_triage.sh)
+            let replay = json!({"property": sh.id, "stream": name, "case": serde_json::to_value(v).unwrap_or(Value::Null), "note": "case that was executing when the process died"});
+            crate::crash::publish(&replay.to_string());
+        }
         sh.watch_lazy(std::sync::Arc::new(move || json!({"stream": name, "case": serde_json::to_value(&copy).unwrap_or(Value::Null)})));
         // a panic inside the harness/check itself (not guarded library code) is also a failure
         let r = match guard(|| (self.check)(sh, v)) {
@@ -343,6 +350,9 @@ where
             Err(p) => Err(Failure::new("panic", format!("panic escaped: {p}"))),
         };
         sh.unwatch_lazy();
+        if record_all() {
+            crate::crash::clear();
+        }
         sh.beat();
         r
     }
@@ -429,6 +439,10 @@ where
         let before = sh.evaluations.load(Ordering::Relaxed);
         let t0 = Instant::now();
         let shards = 16usize;
+        let stride = enum_stride();
+        if stride > 1 {
+            sh.exhaustive_all.store(false, Ordering::Relaxed);
+        }
         let failures: Mutex<Vec<(usize, Value, Failure)>> = Mutex::new(vec![]);
         let counted = AtomicU64::new(0);
         std::thread::scope(|scope| {
@@ -440,7 +454,7 @@ where
                     .spawn_scoped(scope, move || {
                         COUNTING.with(|c| c.set(true));
                         for (i, v) in mk(sh.tier).enumerate() {
-                            if i % shards != k {
+                            if i % stride != 0 || (i / stride) % shards != k {
                                 continue;
                             }
                             if failures.lock().unwrap().len() >= 20 {
@@ -468,13 +482,30 @@ where
         let after = sh.evaluations.load(Ordering::Relaxed);
         sh.stream_info.lock().unwrap().push(json!({
             "stream": self.name, "kind": "enumeration", "enumerated": counted.load(Ordering::Relaxed),
-            "evaluations": after - before, "completed": complete,
+            "evaluations": after - before, "completed": complete, "stride": stride,
             "wall_s": t0.elapsed().as_secs_f64(),
         }));
     }
 }
 
 fn strat_sample<V>() {}
+
+/// the harness is built twice: the optimised build that decides each property and a replica
+/// whose narsese crate is compiled like `cargo test` compiles it (opt-level 0, debug
+/// assertions on); the driver sets VERIF_PROFILE=dbg for the latter
+pub fn is_dbg_profile() -> bool {
+    std::env::var("VERIF_PROFILE").map(|v| v == "dbg").unwrap_or(false)
+}
+fn record_all() -> bool {
+    static R: std::sync::OnceLock<bool> = std::sync::OnceLock::new();
+    *R.get_or_init(|| std::env::var("VERIF_RECORD_ALL").is_ok())
+}
+fn skipped_streams() -> Vec<String> {
+    std::env::var("VERIF_SKIP_STREAMS").map(|v| v.split(',').map(|s| s.trim().to_string()).filter(|s| !s.is_empty()).collect()).unwrap_or_default()
+}
+fn enum_stride() -> usize {
+    std::env::var("VERIF_ENUM_STRIDE").ok().and_then(|s| s.parse::<usize>().ok()).unwrap_or(1).max(1)
+}
 
 impl<V> AnyStream for Stream<V>
 where
@@ -683,6 +714,7 @@ pub fn run_property(prop: &Prop, tier: Tier, seed: u64, root: PathBuf, only_stre
         // 3. streams
         sh.beat();
         sh.streams_running.store(true, Ordering::Relaxed);
+        let skip = skipped_streams();
         for s in &streams {
             if let Some(o) = only_stream {
                 if s.name() != o {
@@ -691,6 +723,9 @@ pub fn run_property(prop: &Prop, tier: Tier, seed: u64, root: PathBuf, only_stre
             }
             if sh.stopped() {
                 break;
+            }
+            if skip.iter().any(|n| n == s.name()) {
+                continue;
             }
             s.run(&sh);
         }
@@ -827,8 +862,9 @@ fn write_evidence(prop: &Prop, sh: &Shared, wall: f64, violations: usize) {
         "assumptions": prop.assumptions,
         "wall_s": wall,
         "violations": violations,
+        "build_profile": if is_dbg_profile() { "dbg (narsese: opt-level 0, debug assertions on)" } else { "release (opt-level 2, overflow checks on, debug assertions off)" },
     });
-    let dir = sh.root.join("evidence");
+    let dir = sh.root.join(if is_dbg_profile() { "evidence-dbg" } else { "evidence" });
     let _ = std::fs::create_dir_all(&dir);
     let _ = std::fs::write(dir.join(format!("{}.json", prop.id)), serde_json::to_string_pretty(&ev).unwrap());
 }
